@@ -29,5 +29,10 @@ def run(ctx: Ctx) -> None:
     ctx.do(R.rule_damparg, [f'{R.BP}.step', f'{R.BP}.load_state_dict'])
     ctx.do(C.rule_enum_compute)
     ctx.do(MEMO.rule_memo)
+    # the system solved is the one of the *current* running factors: second-order code may read the factors, never
+    # update them in place (damping added through an alias would accumulate in the stored factor)
+    ctx.do(TR.rule_alias_input)
+    # nu: the global clip scale the written-back gradient is multiplied with
+    ctx.do(R.rule_aff_clip)
     from kfv.rules import dist_rules as _DR
     ctx.do(_DR.rule_contig)
